@@ -155,6 +155,17 @@ impl Property for C07 {
                 });
                 continue;
             }
+            let mut c = c;
+            if c.text.is_some() && c.slot.is_some() && rng.chance(1, 5) {
+                // adjacent slice of the same buffer: starts exactly where an earlier text of this slot ended
+                if let Some(prev) = calls.iter().rev().find(|p| p.slot == c.slot && p.text.is_some()) {
+                    let end = prev.slot_off + prev.text.as_ref().map(|t| t.len()).unwrap_or(0);
+                    if end + c.text.as_ref().map(|t| t.len()).unwrap_or(0) < 500_000 {
+                        c.slot_off = end;
+                        sc.family = "history+adjacent".into();
+                    }
+                }
+            }
             calls.push(c.clone());
             ops.push(Op::Call(c.clone()));
             if c.text.is_some() && rng.chance(1, 4) {
@@ -183,7 +194,9 @@ impl Property for C07 {
         }
         ops.push(Op::Call(last));
         sc.threads = vec![ops];
-        sc.family = "history".into();
+        if sc.family.is_empty() {
+            sc.family = "history".into();
+        }
         sc
     }
 
@@ -264,6 +277,9 @@ impl Property for C07 {
                     }
                     if o.residue_before.2 > 0 {
                         rep.probe("residue_memo", 1);
+                    }
+                    if c.slot_off > 0 {
+                        rep.probe("adjacent_slice", 1);
                     }
                     if c.slot.is_some()
                         && prev.last().map(|(a, t)| *a == c.slot && t.as_ref().map(|t| t.len()) == c.text.as_ref().map(|t| t.len()) && *t != c.text).unwrap_or(false)
